@@ -553,11 +553,14 @@ fn policy_table() -> Vec<String> {
 
 /// runs one case in its own thread; a case that does not finish within 60 s is a hang of the code under test (data)
 fn guarded(label: String, f: impl FnOnce() -> String + Send + 'static) -> String {
+    guarded_for(60, label, f)
+}
+fn guarded_for(secs: u64, label: String, f: impl FnOnce() -> String + Send + 'static) -> String {
     let (tx, rx) = std::sync::mpsc::channel();
     std::thread::spawn(move || {
         let _ = tx.send(f());
     });
-    match rx.recv_timeout(std::time::Duration::from_secs(60)) {
+    match rx.recv_timeout(std::time::Duration::from_secs(secs)) {
         Ok(s) => s,
         Err(_) => format!("{{\"ev\":\"stuck\",\"fmt\":\"\",\"cap\":0,\"writing\":{},\"what\":\"{}\"}}", label.starts_with("write"), label),
     }
@@ -607,9 +610,9 @@ fn in_child(fmt: &str, w: usize, cap: usize) -> String {
 /// far seeks on a virtual file of 2^32 + 2^20 + 5 records (more than 2^37 bytes): offsets, line numbers and distances beyond 2^31 / 2^32
 fn far_cases(f: &mut std::io::BufWriter<std::fs::File>, thorough: bool) -> usize {
     let mut cases = 0usize;
+    use crate::far::Step::*;
+    let nrec: u64 = (1u64 << 32) + (1u64 << 20) + 5;
     {
-        use crate::far::Step::*;
-        let nrec: u64 = (1u64 << 32) + (1u64 << 20) + 5;
         let mut scripts = crate::far::scripts(thorough);
         scripts.push(vec![Next, Seek(nrec - 1), Next, Next, Seek(nrec - 2), Set, Next, Seek(0), Next, Seek(nrec - 3), Next, Next, Next, Next, Set]);
         for sc in scripts {
@@ -619,6 +622,17 @@ fn far_cases(f: &mut std::io::BufWriter<std::fs::File>, thorough: bool) -> usize
                     writeln!(f, "{}", guarded(format!("far seek fasta={} cap={}", fasta, cap), move || if fasta { crate::far::far_fasta(nrec, cap, sc2) } else { crate::far::far_fastq(nrec, cap, sc2) })).unwrap();
                     cases += 1;
                 }
+            }
+        }
+    }
+    // sequential reading across byte offset 2^32: 2^27 + 2^11 records through record sets (64 KiB buffer; thorough: also 1 MiB), then
+    // record by record, then back to the start
+    {
+        for cap in if thorough { vec![65536usize, 1 << 20] } else { vec![65536usize] } {
+            for fasta in [true, false] {
+                let sc = vec![Next, Drain((1u64 << 27) + (1 << 11)), Next, Next, Set, Seek(5), Next];
+                writeln!(f, "{}", guarded_for(900, format!("far sequential fasta={} cap={}", fasta, cap), move || if fasta { crate::far::far_fasta(nrec, cap, sc) } else { crate::far::far_fastq(nrec, cap, sc) })).unwrap();
+                cases += 1;
             }
         }
     }
